@@ -33,7 +33,7 @@ type casRule struct {
 	Yields   int        `json:"yields,omitempty"`
 	Children []casChild `json:"children,omitempty"`
 	SampleHP bool       `json:"sample_hp,omitempty"`
-	Scope    []string   `json:"scope,omitempty"` // scope paths the cascade must allow
+	Scope    []string   `json:"scope,omitempty"`            // scope paths the cascade must allow
 	Nested   int        `json:"nested_wait_kind,omitempty"` // the action starts a cascade of this kind with AddEventAndWait (blocks its worker)
 }
 
@@ -41,19 +41,19 @@ type casRoot struct {
 	Kind    int  `json:"kind"`
 	Wait    bool `json:"wait"`
 	PauseNs int  `json:"pause,omitempty"`
-	Scope   int  `json:"scope,omitempty"` // index into the plan's scopes (0 = default scope)
+	Scope   int  `json:"scope,omitempty"`             // index into the plan's scopes (0 = default scope)
 	Late    bool `json:"set_after_monitor,omitempty"` // the fail-on-first-error setting gets its final value after the root monitor was created
 }
 
 type casPlan struct {
-	Scopes     []map[string]bool `json:"scopes,omitempty"` // cascade scopes (index 0 is the default scope and not listed)
-	ToggleFF   bool       `json:"toggle_fail_first_while_running,omitempty"` // the setting is changed after Start()
-	ResetCycle bool       `json:"reset_cycle,omitempty"` // configure, add a rule, Reset(), then add the real rules (multi-step API sequence)
-	Workers   int         `json:"workers"`
-	FailFirst bool        `json:"fail_first"`
-	NKinds    int         `json:"kinds"`
-	Rules     []casRule   `json:"rules"`
-	Clients   [][]casRoot `json:"clients"`
+	Scopes     []map[string]bool `json:"scopes,omitempty"`                          // cascade scopes (index 0 is the default scope and not listed)
+	ToggleFF   bool              `json:"toggle_fail_first_while_running,omitempty"` // the setting is changed after Start()
+	ResetCycle bool              `json:"reset_cycle,omitempty"`                     // configure, add a rule, Reset(), then add the real rules (multi-step API sequence)
+	Workers    int               `json:"workers"`
+	FailFirst  bool              `json:"fail_first"`
+	NKinds     int               `json:"kinds"`
+	Rules      []casRule         `json:"rules"`
+	Clients    [][]casRoot       `json:"clients"`
 }
 
 func init() {
@@ -351,26 +351,26 @@ type casEvent struct {
 }
 
 type casCascade struct {
-	id        int
-	rm        *engine.RootMonitor
-	finished  int // finish handler invocations
-	returned  bool
-	waited    bool
-	rootEvent int
+	id         int
+	rm         *engine.RootMonitor
+	finished   int // finish handler invocations
+	returned   bool
+	waited     bool
+	rootEvent  int
 	addingRoot bool
-	scope     map[string]bool // nil = default scope {"": true}
+	scope      map[string]bool // nil = default scope {"": true}
 }
 
 type casState struct {
-	p        *casPlan
-	prop     string
-	proc     engine.Processor
-	events   []*casEvent
-	cascades []*casCascade
-	running  map[int]int   // cascade -> actions currently running
-	inAdd    map[int]int   // cascade -> AddEvent calls in progress
-	lastEnd  map[uint64]int64
-	byKind   map[int][]int // kind -> rule indexes
+	p         *casPlan
+	prop      string
+	proc      engine.Processor
+	events    []*casEvent
+	cascades  []*casCascade
+	running   map[int]int // cascade -> actions currently running
+	inAdd     map[int]int // cascade -> AddEvent calls in progress
+	lastEnd   map[uint64]int64
+	byKind    map[int][]int // kind -> rule indexes
 	hpSamples int
 	deferred  simsync.WaitGroup
 }
